@@ -360,6 +360,32 @@ class GrammarModel:
                     if g in starts:
                         starts[g].add(st)
                         self.entry_points[name] = (g, st, tr)
+        missing = [name for name in hp.methods if name.endswith('_parser') and name not in self.entry_points]
+        if missing:
+            # the factories do not call from_grammar with literal arguments themselves (a table of entry points, a
+            # shared helper): what reaches from_grammar when they are evaluated
+            from .terms import BoundMethod, Call, ClassRef, Const, Evaluator, FuncRef, GlobalVal, NONE
+            ev = Evaluator(self.model)
+            by_text = {v: k for k, v in self.embedded.items()}
+            for name in missing:
+                fi = hp.methods[name]
+                params = fi.params()
+                outs = ev.run(fi, {params[0]: ClassRef('HplParser')} if params and fi.kind == 'classmethod' else {})
+                found = set()
+                for o in outs:
+                    for t in o.trace:
+                        if isinstance(t, Call) and isinstance(t.func, BoundMethod) and t.func.name == 'from_grammar' and t.args:
+                            g0 = t.args[0]
+                            g = g0.name.split('.')[-1] if isinstance(g0, GlobalVal) else by_text.get(g0.value) if isinstance(g0, Const) else None
+                            st0 = t.kw('start') if t.kw('start') is not None else (t.args[1] if len(t.args) > 1 else Const('hpl_file'))
+                            tr0 = t.kw('transform')
+                            tr = None if tr0 is None or tr0 == NONE else (tr0.key.split('.')[-1].split(':')[-1] if isinstance(tr0, FuncRef) else repr(tr0))
+                            if g in starts and isinstance(st0, Const):
+                                found.add((g, st0.value, tr))
+                if len(found) == 1:
+                    g, st1, tr = found.pop()
+                    starts[g].add(st1)
+                    self.entry_points[name] = (g, st1, tr)
         for g in starts:
             if not starts[g]:
                 raise AnalysisError('GM', f'no parser entry point uses {g}')
